@@ -44,6 +44,10 @@ type Sched struct {
 	Replay    bool       `json:"replay,omitempty"`
 	Tape      [][2]int64 `json:"tape,omitempty"`
 	Pipe      bool       `json:"pipe,omitempty"`
+	// ClockTick: simulated nanoseconds that pass per step (0: the simulated clock
+	// only moves when no task can run, or by an injected jump). Only drawn when
+	// the tree under test waits on the clock.
+	ClockTick int64 `json:"clock_tick,omitempty"`
 }
 
 type Faults struct {
@@ -51,6 +55,8 @@ type Faults struct {
 	Replay  bool    `json:"replay,omitempty"`
 	Tape    []int64 `json:"tape,omitempty"`
 	GCSteps []int64 `json:"gc_steps,omitempty"`
+	// ClockJumps: injected clock jumps (step, nanoseconds forward)
+	ClockJumps [][2]int64 `json:"clock_jumps,omitempty"`
 }
 
 type Input struct {
